@@ -14,3 +14,5 @@ mod simd_score;
 mod dense_layout;
 #[cfg(kani)]
 mod simd_stripe;
+#[cfg(kani)]
+mod simd_sse2;
